@@ -15,6 +15,9 @@ import (
 
 var decodeDeadline = 3 * time.Second
 
+// encodeDeadline bounds one IEncode call
+var encodeDeadline = 20 * time.Second
+
 type layoutJSON struct {
 	Name   string      `json:"name"`
 	Fields [][2]string `json:"fields"`
@@ -50,6 +53,17 @@ var (
 	reNumE = regexp.MustCompile(`^\.num (\d+) `)
 )
 
+// baselineLayoutsPath: the layouts of the unchanged tree (written by tools/mkbaseline.sh).  When the
+// translation of a type regenerated from the current source contains an `.unsupported` node, the
+// proof obligations fail in the Lean build; the harness then still has to *search for a failing
+// input*, and it generates that type's values from the last translation it understood instead of
+// from a shape with holes (a length field no longer tied to its content would be drawn from the
+// full 32-bit range, and the real encoder would be asked to pad 4 GiB).
+var baselineLayoutsPath = "/verif/go/harness/layouts.baseline.json"
+
+// degradedTypes: types whose regenerated translation has unsupported nodes (shape taken from the baseline)
+var degradedTypes = map[string]bool{}
+
 func loadLayouts(path string) error {
 	b, err := os.ReadFile(path)
 	if err != nil {
@@ -58,6 +72,35 @@ func loadLayouts(path string) error {
 	var ls []layoutJSON
 	if err := json.Unmarshal(b, &ls); err != nil {
 		return err
+	}
+	hasUnsupported := func(l layoutJSON) bool {
+		for _, op := range append(append([]string{}, l.Enc...), l.Dec...) {
+			if strings.Contains(op, ".unsupported") {
+				return true
+			}
+		}
+		return false
+	}
+	var base map[string]layoutJSON
+	for i, l := range ls {
+		if !hasUnsupported(l) {
+			continue
+		}
+		if base == nil {
+			base = map[string]layoutJSON{}
+			if bb, err := os.ReadFile(baselineLayoutsPath); err == nil {
+				var bl []layoutJSON
+				if json.Unmarshal(bb, &bl) == nil {
+					for _, x := range bl {
+						base[x.Name] = x
+					}
+				}
+			}
+		}
+		if bl, ok := base[l.Name]; ok && !hasUnsupported(bl) {
+			ls[i] = bl
+			degradedTypes[l.Name] = true
+		}
 	}
 	for _, l := range ls {
 		s := &shape{name: l.Name, ftype: map[string]fieldDesc{}, slot: map[string]int{}, cstr: map[string]bool{}, body: map[string]string{},
